@@ -406,7 +406,11 @@ def r94(ctx) -> None:
                 # a comparison whose operands are TRANSFORMED identities is
                 # not an identity comparison
                 transformed = []
-                for cmpn in [x for x in ast.walk(g)
+                exprs = [g] + [v for nm in ast.walk(g)
+                               if isinstance(nm, ast.Name)
+                               for v in resolve_local(f, nm)
+                               if v is not None and v is not nm]
+                for cmpn in [x for e_ in exprs for x in ast.walk(e_)
                              if isinstance(x, ast.Compare)]:
                     for side in [cmpn.left] + cmpn.comparators:
                         for v in resolve_local(f, side):
